@@ -53,22 +53,22 @@ Proof. reflexivity. Qed.
 Lemma metadata_not_link fs p : metadata fs p <> Some KLink.
 Proof. unfold metadata. destruct (node_at fs p true) as [[[[d|e|t] q] v]|]; discriminate. Qed.
 
-Lemma gcrl_path_only g fs a b' rv : path_or_panic a = path_or_panic b' ->
-  get_content_range_list g fs a rv = get_content_range_list g fs b' rv.
+Lemma gcrl_path_only fs a b' rv : path_or_panic a = path_or_panic b' ->
+  get_content_range_list fs a rv = get_content_range_list fs b' rv.
 Proof. intro E. unfold get_content_range_list. rewrite E. reflexivity. Qed.
 
 Definition GETr (u : list N) := mkR GET u [72;84;84;80;47;49;46;49] [] [].
 
 Theorem C02_lookup_refines fs u P :
-  path_or_panic u = SOk P -> clean_path P -> u <> [47] -> KF_C02_tree fs P = false ->
+  path_or_panic u = SOk P -> clean_path P -> has_dotdot P = false -> u <> [47] -> KF_C02_tree fs P = false ->
   match lookup fs P with
-  | Some Q => is_matching false fs (GETr u) = SOk true /\
-              process_static false fs (GETr u) = get_content_range_list false fs Q DEFAULT_RANGE
-  | None => is_matching false fs (GETr u) = SOk false
+  | Some Q => is_matching fs (GETr u) = SOk true /\
+              process_static fs (GETr u) = get_content_range_list fs Q DEFAULT_RANGE
+  | None => is_matching fs (GETr u) = SOk false
   end.
 Proof.
-  intros EP Hcl Hu Hk.
-  assert (Hmm : negb (beqs u [47]) = true).
+  intros EP Hcl Hdd Hu Hk.
+  assert (Hmm : (beqs GET GET || beqs GET HEAD || beqs GET OPTIONS) && negb (beqs u [47]) = true).
   { destruct (beqs u [47]) eqn:E; [apply beqs_eq in E; contradiction|reflexivity]. }
   destruct Hcl as [[t Et] [Hq Hh]].
   assert (Hdi : exists di, dir_index P = SOk di /\ (di = INDEX_HTML \/ di = 47 :: INDEX_HTML)).
@@ -76,8 +76,8 @@ Proof.
     - apply (f_equal (@rev N)) in Er. rewrite rev_involutive in Er. discriminate.
     - destruct (N.eqb c 47); eauto. }
   destruct Hdi as [di [Edi Hdi]].
-  unfold lookup, KF_C02_tree in *. unfold is_matching, process_static. cbn [method uri GETr]. rewrite beqs_refl. cbn [negb andb].
-  rewrite EP. cbn [andb]. rewrite Edi in *. unfold get_header. cbn [headers GETr find].
+  unfold lookup, KF_C02_tree in *. unfold is_matching, process_static. cbn [method uri GETr].
+  rewrite EP. rewrite Hdd. rewrite Edi in *. unfold get_header. cbn [headers GETr find].
   unfold can_open, is_file_at in *. rewrite <- ?app_assoc in *.
   destruct (metadata fs (cwd_str fs ++ P)) as [[| |]|] eqn:M0.
   - (* regular file *) rewrite Hmm. split; [reflexivity|]. apply gcrl_path_only. rewrite EP. symmetry. apply reparse_clean. split; [eauto|auto].
